@@ -261,3 +261,60 @@ Section Framed.
     rewrite fdrain_unfold, H0. reflexivity.
   Qed.
 End Framed.
+
+(* ------------------------------------------------------------------------------------------ *)
+(** [Buffered] again, for receivers whose drain function is only well-behaved on the (mode, buffer)
+    pairs that can actually occur: [Good] is an invariant of those pairs (kept by appending bytes
+    and by draining); stability is required for good pairs only. *)
+Section BufferedInv.
+  Variables B E X : Type.
+  Variable drain : X -> list B -> list E * option (X * list B).
+  Variable Good : X -> list B -> Prop.
+
+  Definition prefix_stable_on : Prop := forall x b c ev x' r, Good x b ->
+    drain x b = (ev, Some (x', r)) ->
+    drain x (b ++ c) = let (ev', s') := drain x' (r ++ c) in (ev ++ ev', s').
+  Definition close_stable_on : Prop := forall x b c ev, Good x b ->
+    drain x b = (ev, None) -> drain x (b ++ c) = (ev, None).
+  Definition good_extends : Prop := forall x b c, Good x b -> Good x (b ++ c).
+  Definition good_drains : Prop := forall x b ev x' r, Good x b -> drain x b = (ev, Some (x', r)) -> Good x' r.
+
+  Hypothesis PS : prefix_stable_on.
+  Hypothesis CS : close_stable_on.
+  Hypothesis GE : good_extends.
+  Hypothesis GD : good_drains.
+
+  Definition good_settled (s : bstate B X) : Prop :=
+    match s with None => True | Some (x, b) => Good x b /\ drain x b = ([], Some (x, b)) end.
+
+  Lemma drain_good_settled : forall x b, Good x b -> good_settled (snd (drain x b)).
+  Proof.
+    intros x b Hg. destruct (drain x b) as [ev [[x' r]|]] eqn:Hd; simpl; [|exact I].
+    split; [eapply GD; eauto|].
+    pose proof (PS [] Hg Hd) as H. rewrite !app_nil_r, Hd in H.
+    destruct (drain x' r) as [ev' s']. inversion H as [[H1 H2]].
+    assert (ev' = []) as ->.
+    { apply (app_inv_head ev). now rewrite app_nil_r. }
+    reflexivity.
+  Qed.
+
+  Theorem buffered_inv_segmentation_invariant : forall cs s, good_settled s ->
+    run (bfeed drain) s cs = bfeed drain s (concat cs).
+  Proof.
+    intros cs s Hs. apply run_concat with (Inv := good_settled); auto.
+    - intros [[x b]|] c H; simpl; [|exact I]. destruct H as [Hg _]. apply drain_good_settled. now apply GE.
+    - intros [[x b]|] H; simpl in *; [|reflexivity]. destruct H as [_ H]. now rewrite app_nil_r.
+    - intros [[x buf]|] a b H; simpl; [|reflexivity]. destruct H as [Hg _].
+      rewrite app_assoc. pose proof (GE a Hg) as Hg'.
+      destruct (drain x (buf ++ a)) as [ev [[x' r]|]] eqn:Hd.
+      + rewrite (PS b Hg' Hd). simpl. reflexivity.
+      + rewrite (CS b Hg' Hd). simpl. now rewrite app_nil_r.
+  Qed.
+
+  Corollary buffered_inv_from_empty : forall x cs s, Good x [] -> drain x [] = ([], Some (x, [])) -> chunks cs s ->
+    run (bfeed drain) (Some (x, [])) cs = drain x s.
+  Proof.
+    intros x cs s Hg H0 Hc. rewrite buffered_inv_segmentation_invariant by (split; assumption).
+    simpl. now rewrite Hc.
+  Qed.
+End BufferedInv.
